@@ -436,7 +436,11 @@ def run(ck, F):
         import arena as _arena
         copies = _arena.bulk_copies(F, mf)[i][3] if i < len(_arena.bulk_copies(F, mf)) else []
         okc = any(src == ('param', 0) and cnt == {('param', 1): 1} and dst == {} for src, cnt, dst in copies)
-        ck.check(R2, f'make_string#{i}', ok and okc, f'make_string: length write={[contracts.render(e[2], st, {}) for e in lw]}, '
+        lv = lw[-1][2] if lw else None
+        while isinstance(lv, tuple) and lv and lv[0] == 'castto':
+            lv = lv[2]
+        ok_len = len(lw) >= 1 and lv == ('param', 1)
+        ck.check(R2, f'make_string#{i}', ok_len and okc, f'make_string: length write={[contracts.render(e[2], st, {}) for e in lw]}, '
                  f'copies (source, count, destination index)={[(contracts.render(c[0], st, {})[:40], c[1], c[2]) for c in copies]}', loc=mf['loc'], fn=mf['id'])
     ck.check(R2, 'make_string returns header', all(k == 'return' and find(v, lambda t: named_call(t, 'allocate')) is not None for st, k, v in S3.run(mf['id'])),
              'make_string does not return the allocated header', loc=mf['loc'], fn=mf['id'])
